@@ -484,12 +484,14 @@ theorem reshape_drop_get {α} {p n1 n2 : Nat} {rows : List (List α)} (hwf : ∀
   rw [e, List.drop_drop, ← Nat.add_mul, hb]
   simp [hlt]
 
-theorem splitOwned_alignedBy {n1 : Nat} {ds a b : DS R T W}
+theorem splitOwned_alignedBy {std : Bool} {n1 : Nat} {ds a b : DS R T W}
     (hr : ∀ r ∈ ds.recs, r.length = ds.p) (ht : ∀ g ∈ ds.tgts, g.length = ds.t)
     (hlen : ds.tgts.length = ds.recs.length)
-    (h : splitOwned n1 ds = some (a, b)) :
+    (h : splitOwned std n1 ds = some (a, b)) :
     AlignedBy id id id id ds a ∧ AlignedBy (fun k => n1 + k) id id id ds b := by
   unfold splitOwned at h
+  split at h
+  · simp at h
   split at h
   · simp at h
   · rename_i hn
